@@ -1,6 +1,6 @@
 """C03 — round trip keeps declared data, stays schema-valid and is idempotent (attribute clauses)."""
 import re
-from lib import (norm_arm, walk, nodes, ends, src, psrc, outcome, contains_node, pat_top_variants, short, calls_in, block_last,
+from lib import (Canon, norm_arm, walk, nodes, ends, src, psrc, outcome, contains_node, pat_top_variants, short, calls_in, block_last,
                  strip_refs, guards, gtext, top_stmts, templates_in)
 import emit
 import tmplparse as tp
@@ -57,11 +57,16 @@ def run(facts, rep, tier):
                 if cell in PRED:
                     rep.ob("C03.D1", "predicate-matches-type:%s" % cell, skips == ["skip_serializing_if=" + PRED[cell]], "%s" % skips)
                 elif cell == "Map":
-                    ok = 'skip_serializing_if="::serde_json::Map::is_empty"' in skips and "skip_serializing_if=#is_empty" in skips
-                    lets = [x for x, _ in nodes(arm["body"], "let") if x["pat"].get("k") == "bind" and x["pat"]["name"] == "is_empty"]
-                    okf = bool(lets) and src(lets[0]["init"]) == "format!(map_to_use)"
-                    tf = facts.template_at([y for y, _ in walk(lets[0]["init"]) if y.get("k") == "macro"][0]["sp"]) if lets else None
-                    okf = okf and bool(tf) and tf["text"].startswith('"{}::is_empty"')
+                    cnh = Canon(c, h, 4)
+                    hole_skips = [q for q in quotes_in(facts, arm["body"]) if re.fullmatch(r"skip_serializing_if=#\w+", q[0])]
+                    ok = 'skip_serializing_if="::serde_json::Map::is_empty"' in skips and len(hole_skips) == 1
+                    okf = False
+                    if hole_skips:
+                        hole = [a for a in hole_skips[0][1].get("args", []) if a.get("hole")]
+                        pr = cnh.r(hole[0]) if hole else ""
+                        fm = [y for y, _ in walk(arm["body"]) if y.get("k") == "macro" and y["name"] == "format"]
+                        tf = facts.template_at(fm[0]["sp"]) if fm else None
+                        okf = pr == "format!($&TypeSpace.settings.map_type)" and bool(tf) and tf["text"].startswith('"{}::is_empty"')
                     rep.ob("C03.D1", "predicate-matches-type:Map", ok and okf, "Map: `<configured map>::is_empty`, or serde_json::Map::is_empty for String->JsonValue" if ok and okf else "Map predicate is %s" % skips, arm.get("sp"))
                 else:
                     rep.ob("C03.D1", "predicate-matches-type:%s" % cell, False, "unreviewed skip_serializing_if predicate %s for %s" % (skips, cell), arm.get("sp"))
@@ -72,21 +77,25 @@ def run(facts, rep, tier):
     # ------------------------------------------------------------ D2 rename
     rc = [x for x in c.user_fns() if x["fn"].endswith("util::recase")]
     if rep.floor("C03.D2", "recase", len(rc), 1):
-        s = src(rc[0]["body"])
-        ok = "let new = sanitize(input, case)" in s and "if (new Eq input) { None } else { Some(input.to_string()) }" in s and s.rstrip(" }").endswith("(new, rename)")
+        s = Canon(c, rc[0], 4).r(rc[0]["body"])
+        ok = s == "(sanitize($&str, $Case), if (sanitize($&str, $Case) Eq $&str) None else Some($&str.to_string()))"
         rep.ob("C03.D2", "rename-iff-differs", ok, "recase = (sanitize(input), None if unchanged else Some(input))" if ok else "recase is `%s`" % s[:200], c.fns[rc[0]["fn"]].get("sp"))
     sp = [x for x in c.user_fns() if x["fn"].endswith("TypeSpace::struct_property")]
     if rep.floor("C03.D2", "struct_property", len(sp), 1):
-        s = src(sp[0]["body"])
-        ok = "let (name, rename) = recase(prop_name, Case::Snake)" in s and "Some(old_name) => StructPropertyRename::Rename(old_name) | None => StructPropertyRename::None" in s
-        rep.ob("C03.D2", "property-rename-carries-raw-name", ok, "rename = Rename(<raw JSON name>) from recase(prop_name)" if ok else "struct_property does not keep the raw JSON name for the rename")
+        lit = [n for n, _ in nodes(sp[0]["body"], "struct") if n["path"].endswith("StructProperty") and "rest" not in n]
+        ok = False
+        if lit:
+            cnp = Canon(c, sp[0], 3)
+            fields = {k: cnp.r(v) for k, v in lit[0]["fields"]}
+            ok = fields.get("name") == "recase($&str, Case::Snake).0" and fields.get("rename") == "match recase($&str, Case::Snake).1 { Some(_) => StructPropertyRename::Rename(recase($&str, Case::Snake).1~Some) | None => StructPropertyRename::None }"
+        rep.ob("C03.D2", "property-rename-carries-raw-name", ok, "name = recase(prop_name).0, rename = Rename(<raw JSON name>) iff recase reports one" if ok else "struct_property does not keep the raw JSON name for the rename")
     nm = [a for a in (m[0]["arms"] if m else [])]
     nmatch = [n for n, _ in nodes(h["body"], "match") if n.get("src") == "normal" and "StructPropertyRename" in c.ty(n.get("scty"))]
     if rep.floor("C03.D2", "match on the property's naming", len(nmatch), 1):
         got = {}
         for arm in nmatch[0]["arms"]:
             pk, g, b = norm_arm(arm)
-            qs = [q[0] for q in quotes_in(facts, arm["body"])]
+            qs = [re.sub(r"#\w+", "#s", q[0]) for q in quotes_in(facts, arm["body"])]
             got[pk.split("::")[-1]] = qs
         rep.ob("C03.D4", "property-naming-attrs", got.get("Rename($0)") == ["rename=#s"] and got.get("Flatten") == ["flatten"] and got.get("None") == [], "Rename(s) => rename = #s, Flatten => flatten, None => nothing" if got.get("Flatten") == ["flatten"] else "naming attributes: %s" % got, nmatch[0].get("sp"))
         # the hole is the bound raw name
@@ -145,21 +154,21 @@ def run(facts, rep, tier):
         mt = [n for n, _ in nodes(ee.h["body"], "match") if n.get("src") == "normal" and "EnumTagType" in c.ty(n.get("scty"))]
         if rep.floor("C03.D4", "match on the tag type", len(mt), 1):
             got = {}
+            cne = ee.canon()
             for arm in mt[0]["arms"]:
                 name = pat_top_variants(arm["pat"])[0].split("::")[-1]
-                binds = {f[0]: psrc(f[1]) for x, _ in walk(arm["pat"]) if x.get("k") == "struct" for f in x["fields"]}
                 qs = quotes_in(facts, arm["body"])
-                got[name] = ([q[0] for q in qs], binds, [[a.get("path") for a in q[1].get("args", []) if a.get("hole")] for q in qs])
+                got[name] = ([re.sub(r"#\w+", "#x", q[0]) for q in qs], [[cne.r(a) for a in q[1].get("args", []) if a.get("hole")] for q in qs])
             ok = got.get("External", ([1],))[0] == []
             rep.ob("C03.D4", "tag:External", ok, "External => no representation attribute")
-            g = got.get("Internal", ([], {}, []))
-            ok = g[0] == ["tag=#tag"] and g[2] == [[g[1].get("tag")]]
-            rep.ob("C03.D4", "tag:Internal", ok, "Internal{tag} => tag = #tag" if ok else "Internal => %s" % (g,))
-            g = got.get("Adjacent", ([], {}, []))
-            ok = g[0] == ["tag=#tag", "content=#content"] and g[2] == [[g[1].get("tag")], [g[1].get("content")]]
-            rep.ob("C03.D4", "tag:Adjacent", ok, "Adjacent{tag, content} => tag = #tag, content = #content (each hole bound to its own field)" if ok else "Adjacent => %s" % (g,))
-            g = got.get("Untagged", ([], {}, []))
+            g = got.get("Internal", ([], []))
+            ok = g[0] == ["tag=#x"] and len(g[1]) == 1 and len(g[1][0]) == 1 and g[1][0][0].endswith(".tag_type~Internal.tag")
+            rep.ob("C03.D4", "tag:Internal", ok, "Internal{tag} => tag = <that tag>" if ok else "Internal => %s" % (g,))
+            g = got.get("Adjacent", ([], []))
+            ok = g[0] == ["tag=#x", "content=#x"] and len(g[1]) == 2 and all(len(x) == 1 for x in g[1]) and g[1][0][0].endswith(".tag_type~Adjacent.tag") and g[1][1][0].endswith(".tag_type~Adjacent.content")
+            rep.ob("C03.D4", "tag:Adjacent", ok, "Adjacent{tag, content} => tag = <tag>, content = <content> (each hole bound to its own field)" if ok else "Adjacent => %s" % (g,))
+            g = got.get("Untagged", ([], []))
             rep.ob("C03.D4", "tag:Untagged", g[0] == ["untagged"], "Untagged => untagged")
-            rep.ob("C03.D4", "tag-scrutinee", src(mt[0]["scrut"]) == "tag_type", "match on the entry's tag_type")
+            rep.ob("C03.D4", "tag-scrutinee", bool(re.fullmatch(r"\S*~TypeEntryEnum\.tag_type", cne.r(mt[0]["scrut"]))), "match on the entry's tag_type")
         serde_t = [t for t in ee.templates if t.bound == "serde"]
-        rep.ob("C03.D4", "enum-attrs-interpolated", bool(serde_t) and bool(ee.used_as_hole("serde")) and "serde_options.push(" in src(ee.h["body"]), "#[serde(#(#serde_options),*)] is attached to the enum")
+        rep.ob("C03.D4", "enum-attrs-interpolated", bool(serde_t) and bool(ee.used_as_hole(ee.actual.get("serde", "serde"))) and re.sub(r"#\w+", "#x", serde_t[0].text.replace(" ", "")) == "#[serde(#(#x),*)]", "#[serde(#(#serde_options),*)] is attached to the enum")
